@@ -160,33 +160,49 @@ func (ms *MessageStreamer) Go(ctx context.Context, conn StreamConnection) error 
 				tryWake()
 				mu.Unlock()
 			}
-			if len(msg.Ack) != 0 || len(msg.Nack) != 0 {
-				if err := ms.doAcksNacks(ctx, msg.Ack, msg.Nack); err != nil {
-					return err
-				}
+			// a nack makes the message deliverable again, and the sender may fetch and
+			// re-send it (giving it a fresh pending entry) between the commit of the
+			// nack and the update of the map here: only release the entries that were
+			// pending before the database was told
+			snapshot := func(idLists ...[]uuid.UUID) map[uuid.UUID]*pendingMessage {
+				was := map[uuid.UUID]*pendingMessage{}
 				mu.Lock()
-				for _, id := range msg.Ack {
-					delete(pending, id)
+				for _, ids := range idLists {
+					for _, id := range ids {
+						if pm, ok := pending[id]; ok {
+							was[id] = pm
+						}
+					}
 				}
-				for _, id := range msg.Nack {
-					delete(pending, id)
+				mu.Unlock()
+				return was
+			}
+			release := func(was map[uuid.UUID]*pendingMessage) {
+				mu.Lock()
+				for id, pm := range was {
+					if pending[id] == pm {
+						delete(pending, id)
+					}
 				}
 				tryWake()
 				mu.Unlock()
 			}
+			if len(msg.Ack) != 0 || len(msg.Nack) != 0 {
+				was := snapshot(msg.Ack, msg.Nack)
+				if err := ms.doAcksNacks(ctx, msg.Ack, msg.Nack); err != nil {
+					return err
+				}
+				release(was)
+			}
 			if len(msg.Delay) != 0 {
+				was := snapshot(msg.Delay)
 				if err := ms.doDelay(ctx, msg.Delay, time.Duration(msg.DelaySeconds*float64(time.Second))); err != nil {
 					return err
 				}
 				if msg.DelaySeconds <= 0 {
 					// a non-positive delay is a nack: the messages are no longer
 					// outstanding on this stream, release their flow control share
-					mu.Lock()
-					for _, id := range msg.Delay {
-						delete(pending, id)
-					}
-					tryWake()
-					mu.Unlock()
+					release(was)
 				}
 			}
 		}
